@@ -1,3 +1,5 @@
+import copy
+
 from .add_computed_field import add_computed_field
 
 
@@ -12,6 +14,6 @@ def add_field(name, type, default=None, resources=None, **options):
         operation=(
             default
             if callable(default) else
-            (lambda row: default)
+            (lambda row: copy.deepcopy(default))
         )
     )
